@@ -36,9 +36,10 @@ type verifC47Entry struct {
 }
 
 type verifC47File struct {
-	entries []*verifC47Entry
-	total   *big.Int
-	hexConv bool
+	entries   []*verifC47Entry
+	total     *big.Int
+	hexConv   bool
+	emptyForm string // text of a file without entries
 }
 
 func (f *verifC47File) json() []byte {
@@ -53,6 +54,9 @@ func (f *verifC47File) json() []byte {
 		StakingValue string `json:"stakingvalue"`
 		Delegation   dd     `json:"delegation"`
 	}
+	if len(f.entries) == 0 && f.emptyForm != "" {
+		return []byte(f.emptyForm)
+	}
 	out := make([]ia, 0, len(f.entries))
 	for _, e := range f.entries {
 		out = append(out, ia{e.addrText, e.supply.String(), e.balance.String(), e.staking.String(), dd{e.delegAddr, e.delegVal.String()}})
@@ -63,7 +67,10 @@ func (f *verifC47File) json() []byte {
 
 func (f *verifC47File) String() string {
 	var sb strings.Builder
-	fmt.Fprintf(&sb, "total=%s hex=%v", f.total, f.hexConv)
+	fmt.Fprintf(&sb, "total=%s hex=%v entries=%d", f.total, f.hexConv, len(f.entries))
+	if len(f.entries) == 0 {
+		fmt.Fprintf(&sb, " file text %q", f.emptyForm)
+	}
 	for i, e := range f.entries {
 		fmt.Fprintf(&sb, "\n  [%d] addr=%q (bytes %x) supply=%s balance=%s staking=%s delegation=%s->%q", i, e.addrText, e.addrBytes, e.supply, e.balance, e.staking, e.delegVal, e.delegAddr)
 	}
@@ -201,10 +208,15 @@ func verifC47Run(t *testing.T, quick, thorough int) {
 	validRejected, validAccepted, firstValidRejected := 0, 0, ""
 
 	kit.Run(t, "C47", kit.Budget{Quick: quick, Thorough: thorough},
-		"1-8 entries built valid (distinct non-contract addresses, supply = balance+staking+delegation > 0, total = sum) then 0-2 corruptions (supply off, total off, contract address, duplicate address as identical / upper-case / mixed-case text, negative or zero amounts, garbage address, delegation without address); bech32 (3/4) or hex (1/4) converter; accepted => the four conditions of the statement hold on the harness' model; non-trivial = accepted file with >=3 entries incl. a delegation, or a file with exactly one corruption; distinct by file text",
+		"0 (1/12: file text [] or null, any positive total) or 1-8 entries built valid (distinct non-contract addresses, supply = balance+staking+delegation > 0, total = sum) then 0-2 corruptions (supply off, total off by a small delta or by an unrelated amount, contract address, duplicate address as identical / upper-case / mixed-case text, negative or zero amounts, garbage address, delegation without address); bech32 (3/4) or hex (1/4) converter; accepted => the four conditions of the statement hold on the harness' model; non-trivial = accepted file with >=3 entries incl. a delegation, or a file with exactly one corruption; distinct by file text",
 		func(rt *rapid.T, c *kit.Case) {
 			f := &verifC47File{hexConv: rapid.IntRange(0, 3).Draw(rt, "hexConv") == 0}
-			n := rapid.IntRange(1, 8).Draw(rt, "n")
+			// the file is whatever the operator put into genesis.json: an empty list ("[]", "null") is a
+			// syntactically valid accounts file as well
+			n := 0
+			if rapid.IntRange(0, 11).Draw(rt, "noEntries") != 0 {
+				n = rapid.IntRange(1, 8).Draw(rt, "n")
+			}
 			used := map[string]bool{}
 			for i := 0; i < n; i++ {
 				f.entries = append(f.entries, verifC47GenValidEntry(rt, cv, f.hexConv, i, used))
@@ -212,6 +224,13 @@ func verifC47Run(t *testing.T, quick, thorough int) {
 			totalDelta := big.NewInt(0)
 			nCorr := rapid.SampledFrom([]int{0, 1, 1, 1, 2}).Draw(rt, "nCorr")
 			var corr []string
+			if n == 0 {
+				// no entry can be corrupted; the file itself cannot account for a (necessarily positive) total
+				nCorr = 0
+				corr = append(corr, "no-entries")
+				f.emptyForm = rapid.SampledFrom([]string{"[]", "null", "[\n]\n", " [ ] "}).Draw(rt, "emptyForm")
+				totalDelta = verifC47Amount(rt, "emptyTotal")
+			}
 			noClaim := false // corruption outside the statement (rejection expected, nothing asserted)
 			for k := 0; k < nCorr; k++ {
 				i := rapid.IntRange(0, len(f.entries)-1).Draw(rt, "corrAt")
@@ -226,7 +245,19 @@ func verifC47Run(t *testing.T, quick, thorough int) {
 					e.supply = ns
 					corr = append(corr, "supply-mismatch")
 				case 1: // total != sum of supplies
-					totalDelta.Add(totalDelta, big.NewInt(rapid.SampledFrom([]int64{1, -1, 7, -1000000}).Draw(rt, "totalDelta")))
+					if rapid.IntRange(0, 3).Draw(rt, "totalUnrelated") == 0 {
+						// an unrelated configured total (economics.toml and genesis.json are separate files)
+						d := verifC47Amount(rt, "totalOther")
+						if d.Sign() == 0 {
+							d = big.NewInt(1)
+						}
+						if rapid.Bool().Draw(rt, "totalOtherNeg") {
+							d.Neg(d)
+						}
+						totalDelta.Add(totalDelta, d)
+					} else {
+						totalDelta.Add(totalDelta, big.NewInt(rapid.SampledFrom([]int64{1, -1, 7, -1000000}).Draw(rt, "totalDelta")))
+					}
 					corr = append(corr, "total-mismatch")
 				case 2: // smart contract address
 					b := append([]byte{}, e.addrBytes...)
@@ -293,7 +324,8 @@ func verifC47Run(t *testing.T, quick, thorough int) {
 			}
 			f.total.Add(f.total, totalDelta)
 			if f.total.Sign() <= 0 {
-				c.Class("rejected-by-construction:nonpositive-total")
+				// NewAccountsParser refuses a configured total <= 0 before it reads the file
+				c.Class("total-forced-positive")
 				f.total = big.NewInt(1)
 			}
 			text := f.json()
@@ -390,6 +422,7 @@ func TestVerifC47_AcceptedFilesAccountForSupply(t *testing.T) {
 // regression: the minimal counterexamples found for the duplicate check (suspected defect 21).
 func TestVerifC47_Regress(t *testing.T) {
 	kit.Silence()
+	verifC47RegressNoEntries(t)
 	b32, _ := pubkeyConverter.NewBech32PubkeyConverter(32)
 	h32, _ := pubkeyConverter.NewHexPubkeyConverter(32)
 	keyGen := &mock.KeyGeneratorStub{}
@@ -412,6 +445,21 @@ func TestVerifC47_Regress(t *testing.T) {
 		_, err := parsing.NewAccountsParser(p, big.NewInt(2), tc.conv, keyGen)
 		if err == nil {
 			kit.FailPlain(t, "C47", "C47:accepted-duplicate-other-spelling", "%s: accepted two entries %q and %q of the same address, total 2", name, tc.a, tc.b)
+		}
+	}
+}
+
+// boundary: a file without entries cannot add up to a configured total, which is always > 0
+func verifC47RegressNoEntries(t *testing.T) {
+	b32, _ := pubkeyConverter.NewBech32PubkeyConverter(32)
+	dir := t.TempDir()
+	for i, text := range []string{"[]", "null"} {
+		p := filepath.Join(dir, fmt.Sprintf("empty%d.json", i))
+		if err := os.WriteFile(p, []byte(text), 0o644); err != nil {
+			t.Fatalf("fixture: %v", err)
+		}
+		if _, err := parsing.NewAccountsParser(p, big.NewInt(1), b32, &mock.KeyGeneratorStub{}); err == nil {
+			kit.FailPlain(t, "C47", "C47:accepted-total-mismatch", "file %q (no entries) accepted with configured total supply 1", text)
 		}
 	}
 }
